@@ -55,7 +55,7 @@ class C04(Check):
         "x {LF,CRLF} x final newline {yes,no} x description {no,yes} x buffer {1,2,3,100}. Oracle: quintuples, every interval via "
         "sequence_bytes, derived run list, stream-back == record with non-ACGT -> N, duplicate / empty files rejected, .fai/.agp "
         "files of a real-file slice and the warm reload. non-trivial = file with a non-ACGT run, or multi-line, or CRLF, or no final newline"
-        " Header variants: none, description, trailing blank, trailing tab, description with trailing blank, description after a tab. Duplicate rejection: every name sequence of 2-4 records with a repeat."
+        " Header variants: none, description, trailing blank, trailing tab, description with trailing blank, description after a tab. Duplicate rejection: every name sequence of 2-4 records with a repeat, with and without header-only (zero-length) records."
     )
     assumptions = [
         "well-formed = uniform width per record, no blank lines, no empty records, header token without spaces",
@@ -193,9 +193,10 @@ class C04(Check):
                     for names in itertools.product("abc", repeat=k):
                         if len(set(names)) == k:
                             continue
-                        for sq in (b"A", b"ACGT", b"nn"):
+                        # ... incl. header-only (zero-length) records in the even or in the odd positions
+                        for sq, sq2 in ((b"A", b"AC"), (b"ACGT", b"AC"), (b"nn", b"AC"), (b"", b"AC"), (b"A", b""), (b"", b"")):
                             for buf in (1, 100):
-                                recs = [(n, sq if i % 2 == 0 else b"AC", 2) for i, n in enumerate(names)]
+                                recs = [(n, sq if i % 2 == 0 else sq2, 2) for i, n in enumerate(names)]
                                 data, _ = fm.make_fasta(recs, eol, fnl)
                                 case = ["reject-dup", data.decode(), buf]
                                 ctx.cur = case
